@@ -309,13 +309,20 @@ func c02R3(c *Ctx) {
 				c.ok(construct, P.InstrPos(ret), fname, "object without id (nothing is attributed to a host) — "+desc)
 				continue
 			}
-			// id must be read from the returned object
+			// id must be read from the returned object (directly, or through a
+			// helper that returns the "id" of its argument or nil)
 			okID := false
 			var idErr ssa.Value
 			if ex, ok := id.(*ssa.Extract); ok && ex.Index == 0 {
-				if call, ok := ex.Tuple.(*ssa.Call); ok && call.Call.StaticCallee() != nil && call.Call.StaticCallee().Name() == "GetURL" {
-					key, _ := constString(call.Call.Args[1])
-					if key == "id" && env.resolve(call.Call.Args[0]) == obj {
+				if call, ok := ex.Tuple.(*ssa.Call); ok && call.Call.StaticCallee() != nil {
+					sc := call.Call.StaticCallee()
+					if sc.Name() == "GetURL" {
+						key, _ := constString(call.Call.Args[1])
+						if key == "id" && env.resolve(call.Call.Args[0]) == obj {
+							okID = true
+							idErr = resultValue(call, 1)
+						}
+					} else if k := idReaderParam(P, sc, map[*ssa.Function]bool{}); k >= 0 && k < len(call.Call.Args) && env.resolve(call.Call.Args[k]) == obj {
 						okID = true
 						idErr = resultValue(call, 1)
 					}
@@ -624,4 +631,63 @@ func c02R4(c *Ctx) {
 			c.check(kind != "", fname+"/forwarded", P.InstrPos(ret), fname, "forwards the intact triple of "+kind, "document, source and error returned together do not come from one fetch: "+why)
 		}
 	}
+}
+
+// idReaderParam: fn(obj, ...) (*url.URL, error) returns on every path either no
+// id (nil), an error, or the checked result of GetURL(obj, "id") for one of
+// its own parameters; returns that parameter's index, or -1.
+func idReaderParam(P *Program, fn *ssa.Function, seen map[*ssa.Function]bool) int {
+	if seen[fn] || !P.IsServitorFunc(fn) || len(fn.Blocks) == 0 {
+		return -1
+	}
+	seen[fn] = true
+	res := fn.Signature.Results()
+	if res.Len() != 2 || !isNamed(res.At(0).Type(), "net/url", "URL") || !isErrorType(res.At(1).Type()) {
+		return -1
+	}
+	param := -1
+	for _, b := range fn.Blocks {
+		ret, ok := b.Instrs[len(b.Instrs)-1].(*ssa.Return)
+		if !ok {
+			continue
+		}
+		v := ret.Results[0]
+		if isNilConst(v) {
+			continue
+		}
+		ex, ok := v.(*ssa.Extract)
+		if !ok || ex.Index != 0 {
+			return -1
+		}
+		call, ok := ex.Tuple.(*ssa.Call)
+		if !ok || call.Call.StaticCallee() == nil {
+			return -1
+		}
+		k := -1
+		if call.Call.StaticCallee().Name() == "GetURL" {
+			if key, _ := constString(call.Call.Args[1]); key != "id" {
+				return -1
+			}
+			for i, p := range fn.Params {
+				if call.Call.Args[0] == ssa.Value(p) {
+					k = i
+				}
+			}
+		} else if inner := idReaderParam(P, call.Call.StaticCallee(), seen); inner >= 0 && inner < len(call.Call.Args) {
+			for i, p := range fn.Params {
+				if call.Call.Args[inner] == ssa.Value(p) {
+					k = i
+				}
+			}
+		}
+		if k < 0 || (param >= 0 && param != k) {
+			return -1
+		}
+		// returned as a value only where its error is known nil
+		if e := resultValue(call, 1); e == nil || !knownNil(e, b) {
+			return -1
+		}
+		param = k
+	}
+	return param
 }
